@@ -21,5 +21,4 @@ def run(ctx):
                         "liveness (every Push completes) is checked by TLC on the step-level spec under weak fairness; on the code every sampled fair schedule must terminate"]
 
 def replay(ctx, rp):
-    vlib.log("replay: concurrent histories are re-judged by re-running the check: ./check C11")
-    return 2
+    return vlib.replay_any(ctx, rp)
